@@ -217,22 +217,28 @@ def run_shard(spec):
         kinds = []
         for _ in range(hl if hl is not None else rng.randint(1, 6)):
             kinds.append(history_item(rng, counters))
-        if rng.random() < 0.5:
-            # B's own program abandoned half-way by an injected exception (same sizes as B), then B itself
-            from pv.failpoints import Failpoint, targets
-            from pv.monitors import InjectedFault
-            name = "expression_to_matrices" if rng.random() < 0.5 else rng.choice(sorted(targets()))
+        # B's own program abandoned half-way by an injected exception (same sizes as B), then B itself: always three
+        # times inside the translator B's back-end uses (a fault there leaves whatever module-level scratch state the
+        # translation keeps), and half of the time once more at a random other place
+        from pv.failpoints import Failpoint, targets
+        from pv.monitors import InjectedFault
+        translator = "expression_to_sparse_matrices" if cfg.get("wrapper") == "mosek" else "expression_to_matrices"
+        plan_ab = [translator] * 3 + ([rng.choice(sorted(targets()))] if rng.random() < 0.5 else [])
+        n_events_cache = {}
+        for name in plan_ab:
             buf = io.StringIO()
             # dry run counting the line events of the target while B is built and solved, then abandon B at a
             # uniformly drawn one of them
-            n_events = 0
-            try:
-                with contextlib.redirect_stdout(buf), Failpoint(name, 10 ** 9) as fp0:
-                    mB = gen.Machine().run(B["ops"])
-                    mB.do_solve(driver.solve_kwargs(cfg))
-                n_events = fp0.hits
-            except Exception:
-                pass
+            if name not in n_events_cache:
+                n_events_cache[name] = 0
+                try:
+                    with contextlib.redirect_stdout(buf), Failpoint(name, 10 ** 9) as fp0:
+                        mB = gen.Machine().run(B["ops"])
+                        mB.do_solve(driver.solve_kwargs(cfg))
+                    n_events_cache[name] = fp0.hits
+                except Exception:
+                    pass
+            n_events = n_events_cache[name]
             try:
                 with contextlib.redirect_stdout(buf), Failpoint(name, rng.randint(1, max(1, n_events))) as fp:
                     mB = gen.Machine().run(B["ops"])
